@@ -15,6 +15,8 @@ RULES = {
     "C25.2": "decoder shape: parse_wal_key splits at the right-most S' (rsplitn(2, S') with a 2-part guard, or rsplit_once(S')), removes the prefix P' from the left part exactly once "
              "(strip_prefix; trimming functions that remove repeated or partial matches are reported), parses the right part as u64 and returns exactly (left part without prefix, "
              "parsed number)",
+    "C25.4": "one codec: the separator's text occurs in the sources of the distributed layer only inside wal_key and parse_wal_key - no other function builds or splits keys "
+             "with it (a second decoder, however plausible, is outside the lemma)",
     "C25.3": "agreement: S' == S, P' == P, S is non-empty and its last character is not an ASCII digit",
 }
 
@@ -274,6 +276,52 @@ def run(ctx):
             ctx.ok("C25.3", FE, "separator is non-empty and does not end with a digit", enc.relfile, enc.line)
         else:
             ctx.violate("C25.3", FE, "separator-can-occur-in-number", enc.relfile, enc.line, "separator %r is empty or ends with a digit: the right-most occurrence is not necessarily the encoder's" % S)
+    # ---- one codec ------------------------------------------------------------------
+    # The lemma is about wal_key / parse_wal_key.  Any other function of the distributed layer that takes keys apart (or
+    # puts them together) with the separator's text is a second codec that nothing above judges
+    if S:
+        import os
+        from .core import ast as A
+        root = os.path.join(os.environ.get("VERIF_REPO", "/repo"), "distributed-walrus", "src")
+        rels = []
+        for dp, dn, fn_ in os.walk(root):
+            for f_ in sorted(fn_):
+                if f_.endswith(".rs"):
+                    rels.append(os.path.relpath(os.path.join(dp, f_), os.environ.get("VERIF_REPO", "/repo")))
+        core = S.strip() or S
+        others = []
+        n_files = 0
+        try:
+            files = A.load(ctx, sorted(rels))
+        except Exception as e:     # a file the syntax-tree extractor cannot read: fail closed
+            files = {}
+            ctx.violate("C25.4", "distributed-walrus", "sources-not-readable", "distributed-walrus/src", None, "the sources could not be scanned for other uses of the separator: %s" % str(e)[:120])
+        for rel, af in files.items():
+            n_files += 1
+            for it in af.items:
+                if it.get("k") != "fn" or not isinstance(it.get("body"), dict):
+                    continue
+                if rel.endswith("controller/types.rs") and it["name"] in ("wal_key", "parse_wal_key"):
+                    continue
+                if "test" in (it.get("attrs") or []) or "cfg(test)" in str(it.get("attrs") or "") or "tests" in (it.get("ctx") or ""):
+                    continue
+                for n in A.walk(it["body"]):
+                    if not isinstance(n, dict):
+                        continue
+                    t = None
+                    if n.get("k") == "lit" and isinstance(n.get("text"), str) and n["text"].startswith(("\"", "r\"", "b\"", "r#")):
+                        t = n["text"]
+                    elif n.get("k") == "macro":
+                        t = n.get("tokens") or ""
+                    if t and core in t.replace("{ }", "{}"):
+                        others.append((rel, it["name"], n.get("line")))
+        if others:
+            ctx.violate("C25.4", "%s::%s" % (others[0][0].split("/")[-1][:-3], others[0][1]), "second-wal-key-codec", others[0][0], others[0][2],
+                        "%s uses the separator text %r outside wal_key / parse_wal_key: keys are put together or taken apart by code that the codec rules do not judge "
+                        "(e.g. a decoder that finds the separator with a forward scan mis-splits topics that end in a prefix of it)" % (others[0][1], core))
+        elif n_files:
+            ctx.ok("C25.4", "distributed-walrus", "the separator text %r is used only by wal_key and parse_wal_key (%d files scanned)" % (core, n_files), "distributed-walrus/src", None)
+        ctx.floor("C25.4", "source files of distributed-walrus scanned", n_files, 5)
     ctx.assume("u64::to_string / str::parse::<u64> round-trip (std); rsplitn(2, S) splits at the right-most occurrence of S and yields the right part first (std)")
     ctx.assume("controller/types.rs is type-checked through harness/dwshim (real file, stub dependencies)")
     return {
